@@ -18,7 +18,7 @@ func init() {
 		Explanation: "Structural necessary conditions of 'transit encryption round-trips, binds its inputs and honours version limits', on every CFG path of sdk/helper/keysutil and the transit handlers: " +
 			"(1) every Policy method that takes or parses a key version reaches its key-material fetch (safeGetKeyEntry / GetKey / DeriveKey) only across ver <= LatestVersion and its lower bound (consumers: MinDecryptionVersion, producers: MinEncryptionVersion or the default to latest, ECDH: MinAvailableVersion, HMACKey: non-negative with the lower bound at its two tabled callers); every fetch, convergent-version lookup and version prefix of one operation uses the same version value; the parsed version comes out of the policy's own template split; only tabled functions call the unguarded primitives; " +
 			"(2) SymmetricEncryptRaw/SymmetricDecryptRaw hand the caller's key, data and opts.AdditionalData to the same AEAD constructor per key type; a random nonce or random-nonce AEAD is never used on the convergent arm and the convergent nonce is an HMAC of the plaintext under opts.HMACKey; Encrypt/DecryptWithFactory bind the factory's associated data and GetKey's key into the raw call, use the same cipher family and key-size switch per key type, and the ciphertext/signature prefix written by getVersionPrefix is built from the template getTemplateParts splits; the transit handlers bind a supplied associated_data into the call; " +
-			"(3) Rotate/Upgrade/Persist arm a deferred rollback before mutating, restore the version fields and key map from snapshots taken before the mutation when the named error is non-nil, RotateInMemory cannot fail after its first mutation, Persist writes the policy only after handleArchiving succeeded, handleArchiving refuses an unordered window before writing and trims the live key map only after the archive was stored; a handler that commits a storage transaction after mutating a cached policy restores or invalidates it when the commit fails; " +
+			"(3) Rotate/Upgrade/Persist arm a deferred rollback before mutating, restore the version fields and key map from snapshots taken before the mutation when the named error is non-nil, RotateInMemory cannot fail after its first mutation, Persist writes the policy only after handleArchiving succeeded, handleArchiving refuses an unordered window before writing and trims the live key map only after the archive was stored, and every copy between the archive slice and the live key map pairs slot v - MinAvailableVersion with Keys[Itoa(v)] for one and the same version value v; a handler that commits a storage transaction after mutating a cached policy restores or invalidates it when the commit fails; " +
 			"(4) keys/<name>/config and trim change min_decryption_version / min_encryption_version / min_available_version only across their range checks, persist only across the ordering check, and the config rollback restores both fields from snapshots on an error or error response; the version fields are written only by tabled functions with tabled value shapes.",
 		NotDecided: "round-trip equality and tamper detection themselves (AEAD, OAEP, signature and HMAC arithmetic); determinism of the convergent nonce as a value; that derived keys differ per context (KDF); behaviour of external (KMS) keys; interleavings of concurrent requests (lock discipline); crash points between the archive write and the policy write.",
 		Run:        runC17,
@@ -1375,6 +1375,7 @@ func c17durable(c *eng.Ctx, F *c17fields) {
 			}
 			// deleted versions are below MinDecryptionVersion
 			c.Cut(f, "delete(p.Keys, old version)", dels, c17guard("i < MinDecryptionVersion", c17rel(f, false, func(ssa.Value) bool { return true }, ld(F.minDec), true)), nil)
+			c17archiveSlots(c, F, f)
 		}
 	}
 	// the archive is read back from where it is written
@@ -1471,6 +1472,82 @@ func c17durable(c *eng.Ctx, F *c17fields) {
 		}
 		c.CleanupOnEdges(f, "EndTxStorage failed", fe, "restore or invalidate the cached policy", cleanup)
 	}
+}
+
+// c17archiveSlots (R7): the archive is a slice whose slot for key version v is
+// v - MinAvailableVersion; the live map is keyed by strconv.Itoa(v). Every
+// transfer between the two in handleArchiving (either direction) must use one
+// and the same version value on both sides, otherwise a version comes back
+// from the archive with another version's key material.
+func c17archiveSlots(c *eng.Ctx, F *c17fields, f *ssa.Function) {
+	c.Clause("R7", "C17.3")
+	isArchiveSlice := func(t types.Type) bool {
+		sl, ok := t.Underlying().(*types.Slice)
+		return ok && c17typeName(sl.Elem()) == "keysutil.KeyEntry"
+	}
+	itoaArg := func(v ssa.Value) ssa.Value {
+		k, ok := v.(*ssa.Call)
+		if !ok || eng.CalleeName(k.Common()) != "strconv.Itoa" {
+			return nil
+		}
+		return c17strip(c17arg(k, 0))
+	}
+	n := 0
+	check := func(dir string, pos token.Pos, idx ssa.Value, ver ssa.Value, key ssa.Value) {
+		n++
+		site := "agree{archive slot index, live key version} " + dir
+		kv := itoaArg(key)
+		switch {
+		case ver == nil:
+			c.Violation(f, site, pos, "the archive slot is "+eng.ExprDeep(idx)+", not <version> - MinAvailableVersion (the offset LoadArchive's reader and every other transfer use)", nil)
+		case kv == nil:
+			c.Violation(f, site, pos, "the live key is addressed by "+eng.ExprDeep(key)+", not by strconv.Itoa(<version>)", nil)
+		case kv != ver:
+			c.Violation(f, site, pos, "the archive slot of version "+eng.ExprDeep(ver)+" is paired with the live key of version "+eng.ExprDeep(kv)+": versions would come back from the archive with another version's key", nil)
+		default:
+			c.OK(f, site, pos, "slot "+eng.Expr(idx)+" <-> Keys[Itoa("+eng.Expr(kv)+")]")
+		}
+	}
+	for _, in := range eng.Instrs(f, func(in ssa.Instruction) bool {
+		ia, ok := in.(*ssa.IndexAddr)
+		return ok && isArchiveSlice(ia.X.Type())
+	}) {
+		ia := in.(*ssa.IndexAddr)
+		var ver ssa.Value
+		if bo, ok := ia.Index.(*ssa.BinOp); ok && bo.Op == token.SUB && c17loadOf(F.minAvail)(bo.Y) {
+			ver = c17strip(bo.X)
+		}
+		if ia.Referrers() == nil {
+			continue
+		}
+		for _, r := range *ia.Referrers() {
+			switch x := r.(type) {
+			case *ssa.Store:
+				if x.Addr != ssa.Value(ia) {
+					continue
+				}
+				// live -> archive
+				lk, ok := x.Val.(*ssa.Lookup)
+				if !ok || !c17loadOf(F.keys)(lk.X) {
+					n++
+					c.Undecided(f, "agree{archive slot index, live key version} to archive", x.Pos(), "an archive slot is written with "+eng.ExprDeep(x.Val)+", which is not a read of the live key map")
+					continue
+				}
+				check("to archive", x.Pos(), ia.Index, ver, lk.Index)
+			case *ssa.UnOp:
+				if x.Op != token.MUL || x.Referrers() == nil {
+					continue
+				}
+				// archive -> live
+				for _, rr := range *x.Referrers() {
+					if mu, ok := rr.(*ssa.MapUpdate); ok && mu.Value == ssa.Value(x) && c17loadOf(F.keys)(mu.Map) {
+						check("from archive", mu.Pos(), ia.Index, ver, mu.Key)
+					}
+				}
+			}
+		}
+	}
+	c.Floor(f, "transfers between the archive slice and the live key map", n, 2)
 }
 
 func c17joinArgs(j ssa.CallInstruction) string {
